@@ -4,12 +4,24 @@ import EudoxiaModel.Model.Profile
 import EudoxiaModel.Model.Trace
 import EudoxiaModel.Model.Gen
 import EudoxiaModel.Model.Csv
+import EudoxiaModel.Model.Sched.Naive
+import EudoxiaModel.Model.Sched.Overbook
+import EudoxiaModel.Model.Sched.Priority
 import Driver.Json
 /-! Line-protocol driver: one command per input line, one JSON observation per output line. -/
 open Eudoxia
 
+inductive SS
+  | none
+  | naive (multi : Bool) (s : Naive.St)
+  | over (s : Overbook.St)
+  | pp (s : Prio.St)
+  | pr (s : Prio.St)
+
 structure DS where
   w : World := { cfg := { tps := 1, q := 1, g := 1 } }
+  ss : SS := .none
+  lastRes : List Res := []
   pendSusp : List (Nat × Nat) := []
   pendAsg : List Asg := []
   dead : Bool := false
@@ -47,6 +59,40 @@ def showWorld (w : World) : String :=
 
 def showRes (res : List Res) : String :=
   jarr (res.map (fun r => jarr [toString r.cid, (if r.ok then "1" else "0"), toString r.pool, toString r.cpu, toString r.ram, toString r.prio, jarr (r.ops.map toString)]))
+
+def showJobs (l : List Job) : String :=
+  jarr (l.map (fun j => jarr [jarr (j.ops.map toString), toString j.prio,
+    (match j.retry with | some r => jarr [toString r.oldCpu, toString r.oldRam, (if r.hasErr then "1" else "0"), toString r.cid] | none => "null")]))
+
+def showSS : SS → String
+  | .none => "null"
+  | .naive _ s => "{\"queue\":" ++ jarr (s.queue.map toString) ++ "}"
+  | .over s => "{\"opq\":" ++ jarr (s.opq.map toString) ++ ",\"fails\":" ++ jarr (s.fails.map (fun x => jarr [toString x.1, toString x.2])) ++ "}"
+  | .pp s => "{\"qry\":" ++ showJobs s.qry ++ ",\"inter\":" ++ showJobs s.inter ++ ",\"batch\":" ++ showJobs s.batch ++ ",\"susp\":[]}"
+  | .pr s => "{\"qry\":" ++ showJobs s.qry ++ ",\"inter\":" ++ showJobs s.inter ++ ",\"batch\":" ++ showJobs s.batch ++
+             ",\"susp\":" ++ jarr (s.susp.map (fun x => toString x.1)) ++ "}"
+
+def showDec (dc : Decision) : String :=
+  "{\"sus\":" ++ jarr (dc.sus.map (fun x => jarr [toString x.1, toString x.2])) ++
+  ",\"asgs\":" ++ jarr (dc.asgs.map (fun a => jarr [toString a.pool, toString a.cpu, toString a.ram, toString a.prio, jarr (a.ops.map toString)])) ++ "}"
+
+def schedRound (d : DS) (newP : List Nat) : Except SErr (World × SS × Decision) :=
+  match d.ss with
+  | .none => .ok (d.w, .none, {})
+  | .naive m s => (Naive.round m d.w s d.lastRes newP).map (fun (w, s, dc) => (w, SS.naive m s, dc))
+  | .over s => (Overbook.round d.w s d.lastRes newP).map (fun (w, s, dc) => (w, SS.over s, dc))
+  | .pp s => (Prio.ppRound d.w s d.lastRes newP).map (fun (w, s, dc) => (w, SS.pp s, dc))
+  | .pr s => (Prio.prRound d.w s d.lastRes newP).map (fun (w, s, dc) => (w, SS.pr s, dc))
+
+def doRound (d : DS) (newP : List Nat) : DS × String :=
+  match schedRound d newP with
+  | .error (e, w') => ({ d with w := w' }, "{\"ok\":false,\"phase\":\"sched\",\"err\":" ++ jstr e.name ++ ",\"st\":" ++ showStates w' ++ "}")
+  | .ok (w1, ss, dc) =>
+    let head := "\"dec\":" ++ showDec dc ++ ",\"afterSched\":" ++ showStates w1 ++ ",\"sched\":" ++ showSS ss
+    match w1.execTick dc.sus dc.asgs with
+    | .error (e, none) => ({ d with w := w1, ss := ss, lastRes := [] }, "{\"ok\":false,\"phase\":\"exec\",\"err\":" ++ jstr e.name ++ "," ++ head ++ ",\"state\":null}")
+    | .error (e, some w2) => ({ d with w := w2, ss := ss, lastRes := [] }, "{\"ok\":false,\"phase\":\"exec\",\"err\":" ++ jstr e.name ++ "," ++ head ++ ",\"state\":" ++ showWorld w2 ++ "}")
+    | .ok (w2, res) => ({ d with w := w2, ss := ss, lastRes := res }, "{\"ok\":true," ++ head ++ ",\"state\":" ++ showWorld w2 ++ ",\"res\":" ++ showRes res ++ "}")
 
 def gid (w : World) (pid oid : Nat) : Nat := (w.pipes.getD pid default).first + oid
 
@@ -150,7 +196,19 @@ def step (d : DS) (line : String) : DS × String :=
     (d, match Lean.Json.parse (" ".intercalate rest) >>= DJ.csvPipes with
         | .error e => "{\"ok\":false,\"err\":\"parse\",\"detail\":" ++ (Lean.Json.str e).compress ++ "}"
         | .ok ps => "{\"ok\":true,\"rows\":" ++ DJ.showRows (Csv.toRows ps) ++ "}")
+  | ["sched", algo] =>
+    let ss := if algo == "naive" then SS.naive d.w.cfg.multiOp {} else if algo == "template" then SS.naive false {}
+              else if algo == "overbook" then SS.over {} else if algo == "priority-pool" then SS.pp {} else SS.pr {}
+    ({ d with ss := ss }, "{\"ok\":true}")
+  | ["round", newp] => doRound d (parseList newp)
   | ["reset"] => ({}, "{\"ok\":true}")
+  | "scheck" :: which :: rest =>
+    let text := " ".intercalate rest
+    match Lean.Json.parse text >>= DJ.strace with
+    | .error e => (d, "{\"ok\":false,\"err\":\"parse\",\"detail\":" ++ (Lean.Json.str e).compress ++ "}")
+    | .ok t =>
+      let fails := checkSTrace which t
+      (d, "{\"ok\":true,\"holds\":" ++ jb fails.isEmpty ++ ",\"fails\":" ++ jarr (fails.map jstr) ++ "}")
   | "check" :: which :: rest =>
     let text := " ".intercalate rest
     match Lean.Json.parse text >>= DJ.etrace with
